@@ -611,7 +611,38 @@ ENTRY_POINTS = ['lookup', 'lookup1', 'lookupAll', 'names', 'queryAdapter', 'adap
                 'queryMultiAdapter', 'subscriptions', 'subscribers']
 
 
+def detached_entry_points(ctx, rng):
+    """The entry points are bound methods one may keep (an adapter hook installed globally, say) while dropping every
+    other reference to the registry: they go on answering, cached keys and new ones alike."""
+    for flav, Reg in FLAVOURS.items():
+        mod = util.fresh_module()
+        IR, IR2, IP = util.mkiface('IR', module=mod), util.mkiface('IR2', module=mod), util.mkiface('IP', module=mod)
+        base = Reg()
+        reg = Reg((base,))
+        v1, v2 = Val(0, 1), Val(1, 2)
+        reg.register([IR], IP, '', v1)
+        base.register([IR2], IP, 'n', v2)
+        eps = {'lookup': reg.lookup, 'lookup1': reg.lookup1, 'lookupAll': reg.lookupAll, 'subscriptions': reg.subscriptions,
+               'adapter_hook': reg.adapter_hook, 'queryAdapter': reg.queryAdapter}
+        reg.lookup((IR,), IP, '')            # one key cached, the other not
+        del reg, base
+        gc.collect()
+        ctx.ev(4)
+        ctx.count('detached_entry_point_worlds')
+        try:
+            ok = eps['lookup']((IR,), IP, '') is v1 and eps['lookup']((IR2,), IP, 'n') is v2 and \
+                eps['lookup1'](IR2, IP, 'n') is v2 and dict(eps['lookupAll']((IR2,), IP)).get('n') is v2 and \
+                list(eps['subscriptions']((IR,), IP)) == []
+            err = None
+        except Exception as e:      # noqa
+            ok, err = False, repr(e)
+        if not ok:
+            ctx.violation('entry-point-of-a-dropped-registry', {'flavour': flav, 'error': err})
+
+
 def run_c08(ctx, rng, job):
+    if ctx.case == 0:
+        detached_entry_points(ctx, rng)
     w = RW(ctx, rng, job['tier'], with_objs=True, maxregs=3)
     big = job['tier'] == 'thorough'
     # super proxies as adapted objects
@@ -775,8 +806,10 @@ def run_c08(ctx, rng, job):
                         ctx.violation('subscribers-vs-subscriptions', dict(where, handlers=sp is None, subscriptions=repr(subs), got=repr(got)))
                     if subs:
                         ctx.count('subscriber_calls_checked')
-        # non-string names rejected on every path, cold or warm
-        for badname in (None, b'x', 3):
+        # non-string names rejected on every path, cold or warm (also a specification where the name belongs - swapped
+        # arguments); and the rejected calls leave nothing behind: the specification's own answers are as before
+        spec_as_name = lreq[0] if ar else rng.choice(w.R)
+        for badname in (None, b'x', 3, spec_as_name):
             calls = [('lookup', lambda: reg.lookup(lreq, lprov, badname)),
                      ('lookup1', lambda: reg.lookup1(lreq[0] if ar else Interface, lprov, badname)),
                      ('queryAdapter', lambda: reg.queryAdapter(w.objs[0], lprov, badname)),
@@ -790,6 +823,13 @@ def run_c08(ctx, rng, job):
                     ctx.violation('non-string-name-accepted', {'entry': label, 'name': repr(badname)})
                 except ValueError:
                     pass
+        ctx.ev()
+        la_ = dict(reg.lookupAll((spec_as_name,), lprov))
+        l1_ = reg.lookup1(spec_as_name, lprov, '', D)
+        if la_.get('', D) is not l1_ or reg.lookup((spec_as_name,), lprov, '', D) is not l1_:
+            ctx.violation('lookup-after-rejected-name', {'registry': li, 'specification': nm(spec_as_name), 'provided': nm(lprov),
+                                                         'lookup1': repr(l1_) if l1_ is not D else 'default',
+                                                         'lookupAll': repr(la_.get('', 'missing'))})
         ctx.shape(('c08', ar, len(dict(reg.lookupAll(lreq, lprov))), tuple(order[:3])),
                   nontrivial=len(dict(reg.lookupAll(lreq, lprov))) >= 1)
 
